@@ -497,6 +497,14 @@ def build(tier, seed):
         depth = 2 if tier == 'quick' else 3
         for r in range(2, depth + 1):
             for seq in itertools.permutations(steps[model], r):
+                # (a problem with every parameter fixed has no posterior)
+                net, full_fixed = set(), False
+                for st in seq:
+                    for i_, v_ in st:
+                        (net.discard if v_ is None else net.add)(i_)
+                    full_fixed |= len(net) >= (3 if model == 'toy1' else 4)
+                if full_fixed:
+                    continue
                 refix.append({
                     'model': model, 'inds': inds, 'id_type': 'int',
                     'block_order': [0, 1], 'interleave': 'grouped',
